@@ -73,6 +73,30 @@ func (d Damage) Apply(dir string, seed int64) (applied bool, err error) {
 	isFile := st.Mode().IsRegular()
 	isLink := st.Mode()&os.ModeSymlink != 0
 	switch d.Op {
+	case "fliprun":
+		// flips one bit in each of d.To consecutive 64KiB blocks starting at block d.N
+		var count int64
+		fmt.Sscanf(d.To, "%d", &count)
+		if !isFile || (d.N+count-1)*65536 >= st.Size() || count < 1 {
+			return false, nil
+		}
+		f, err := os.OpenFile(p, os.O_RDWR, 0)
+		if err != nil {
+			return false, err
+		}
+		defer f.Close()
+		for b := d.N; b < d.N+count; b++ {
+			var x [1]byte
+			off := b*65536 + (b % 7)
+			if _, err := f.ReadAt(x[:], off); err != nil {
+				return false, err
+			}
+			x[0] ^= 0x01
+			if _, err := f.WriteAt(x[:], off); err != nil {
+				return false, err
+			}
+		}
+		return true, nil
 	case "flip":
 		if !isFile || d.N >= st.Size() {
 			return false, nil
